@@ -397,7 +397,7 @@ def check_ts_sync(rep, repo, tier):
     rep.units.append(U_SYNC + ' (parsed against stubs/bitstream)')
     rep.rule('R-sync', 'upipe_ts_sync_input (+ check, flush and the generated uref_stream functions) interpreted on ghost block buffers for packet size 4, '
              'ts_sync 2 and 3, four streams (clean, leading junk, loss of sync, a sync-octet emulation followed by exactly one more at +size), each fed '
-             'uncut and cut into two buffers at every position (and into 1-, 2-, 3-octet slices), then flushed: every unit output has the packet size and '
+             'uncut and cut into two buffers at every position (and into 1-, 2-, 3-octet slices; thorough tier: into three buffers at every pair of positions, and 5-, 7-octet slices), then flushed: every unit output has the packet size and '
              'starts with the sync octet; the units are disjoint, in-order pieces of the input (by token identity); and the sequence of units is the same '
              'for every cutting as for the uncut stream')
     P = 4
@@ -412,6 +412,11 @@ def check_ts_sync(rep, repo, tier):
             cuttings = [[N]] + [[c, N - c] for c in range(1, N)]
             for k in (1, 2, 3):
                 cuttings.append([k] * (N // k) + ([N % k] if N % k else []))
+            if tier != 'quick':
+                # thorough: every cutting into three buffers, and slices of 5 and 7 octets
+                cuttings += [[a, b - a, N - b] for a in range(1, N) for b in range(a + 1, N)]
+                for k in (5, 7):
+                    cuttings.append([k] * (N // k) + ([N % k] if N % k else []))
             ref = None
             for cutting in cuttings:
                 nruns += 1
